@@ -47,7 +47,7 @@ def run(ctx):
     chk.rule("R20.2", "no UnsafeCell reachable through the fields of FlatEx, DeepEx, DeepNode, Val, Operator, ExError except under a type-parameter leaf")
     chk.rule("R20.3", "evaluation/query API takes &self")
     chk.rule("R20.4", "no user-written unsafe block, unsafe fn or unsafe impl in the crate")
-    chk.rule("R20.5", "statics: none mut, none thread-local; interior mutability only inside lazy_static's Once-guarded Lazy cell")
+    chk.rule("R20.5", "statics: none mut, none thread-local; interior mutability only inside a Once-guarded write-once cell (lazy_static's Lazy, std::sync::LazyLock / OnceLock)")
     chk.rule("R20.6", "no call into a nondeterminism / shared-mutable-state source from library code")
 
     # ---- R20.1 witnesses
@@ -150,7 +150,8 @@ def run(ctx):
             continue
         w = walks.get(key)
         hits = w["unsafe_cell_hits"] if w else [{"ty": "?"}]
-        if hits and not st["ty"].startswith("lazy_static::lazy::Lazy<"):
+        # write-once cells whose initialisation is synchronised (Once-guarded): lazy_static's Lazy, std's LazyLock / OnceLock
+        if hits and not st["ty"].startswith(("lazy_static::lazy::Lazy<", "std::sync::LazyLock<", "std::sync::OnceLock<", "once_cell::sync::Lazy<", "once_cell::sync::OnceCell<")):
             chk.violation("R20.5", "static-interior-mut:%s" % key, "static %s: %s has interior mutability (%s): shared mutable global state" % (key, st["ty"], hits[0]["ty"]), loc(st["span"]))
         else:
             chk.ok("R20.5", "static %s" % key, st["ty"] + (" (Once-guarded lazy cell, trusted)" if hits else " (no interior mutability)"), loc(st["span"]))
